@@ -315,6 +315,24 @@ def run_shard(shard):
             check_state(sysm, p, list(path), res, viol)
         finally:
             sysm.close()
+        if path:
+            # the same state reached WITH requests between the operations (a driver that remembers anything about
+            # earlier answers - cached definitions - must still answer from its current state)
+            sysm = Sys(p)
+            try:
+                sysm.request(None, None)
+                for op in path:
+                    sysm.apply(op)
+                    sysm.request(None, None)
+                    sysm.request(sysm.specs[0]["name"], "TGT")
+                res["counters"]["primed_states"] = res["counters"].get("primed_states", 0) + 1
+                check_state(sysm, p, list(path) + ["@primed"], res, viol)
+            except Exception as e:  # noqa
+                from mc import lib
+
+                viol("request-raises", "primed-history,%s" % lib.exc_site(e), "requests between the operations %r: %r" % (path, e), {"p": p, "path": list(path) + ["@primed"], "req": None})
+            finally:
+                sysm.close()
         if len(path) >= depth:
             continue
         for op in allops:
@@ -377,6 +395,10 @@ def replay(rep):
     sysm = Sys(p)
     try:
         path = [_t(o) for o in rep["path"]]
+        primed = bool(path) and path[-1] == "@primed"
+        if primed:
+            path = path[:-1]
+            sysm.request(None, None)
         try:
             sysm.canon()
         except DM.Missing as e:
@@ -388,9 +410,12 @@ def replay(rep):
                 from mc import lib
 
                 return [{"clause": "op-raises", "disc": "op=%s,%s" % (op[0], lib.exc_site(e)), "what": repr(e)}]
-            if k == len(path) - 1 and rep["req"] is None:
+            if primed:
+                sysm.request(None, None)
+                sysm.request(sysm.specs[0]["name"], "TGT")
+            if k == len(path) - 1 and rep["req"] is None and not primed:
                 reparse_check(em, viol, None)
-        if rep["req"] is not None or not path:
+        if rep["req"] is not None or not path or primed:
             check_state(sysm, p, path, res, viol)
     finally:
         sysm.close()
